@@ -140,7 +140,9 @@ func vhSerialUid() {
 	}
 	_ = kinds
 	vClockFixed(1709640000)
-	content, err := initCertificate(CertConfig{Subject: "CN=a", SerialNumber: serial, IssuerUniqueId: strs[0], SubjectUniqueId: strs[1]})
+	cfg := CertConfig{Subject: "CN=a", IssuerUniqueId: strs[0], SubjectUniqueId: strs[1]}
+	vSetNum(&cfg.SerialNumber, serial)
+	content, err := initCertificate(cfg)
 	vAssert(err == nil, "initCertificate rejected valid unique ids")
 	if err != nil {
 		return
@@ -155,6 +157,26 @@ func vhSerialUid() {
 	vSameBytes(ctx.IssuerUniqueId.Bytes, uids[0], "issuerUniqueId differs from the configured bytes")
 	vSameBytes(ctx.SubjectUniqueId.Bytes, uids[1], "subjectUniqueId differs from the configured bytes")
 	vAssert(ctx.IssuerUniqueId.BitLength == 8*len(uids[0]) && ctx.SubjectUniqueId.BitLength == 8*len(uids[1]), "unique id bit length")
+	// presence in the encoding: a configured id - also an empty one - is an
+	// [1] / [2] IMPLICIT BIT STRING after the subjectPublicKeyInfo, an absent
+	// one is not there (no extensions are configured, so the ids end the TBS)
+	crt, err := generator.SignCertBody(ctx, *content)
+	vAssert(err == nil, "signing failed")
+	if err != nil {
+		return
+	}
+	tbs := vMust(asn1.Marshal(crt.TBSCertificate))
+	spki := vMust(asn1.Marshal(crt.TBSCertificate.PublicKey))
+	tail := append([]byte{}, spki...)
+	for k := 0; k < 2; k++ {
+		if strs[k] != "" {
+			tail = append(tail, vTLV(byte(0x81+k), vCat([]byte{0}, uids[k]))...)
+		}
+	}
+	vAssert(len(tbs) >= len(tail), "TBSCertificate shorter than its public key and unique ids")
+	if len(tbs) >= len(tail) {
+		vSameBytes(tbs[len(tbs)-len(tail):], tail, "the encoded certificate does not carry exactly the configured unique ids (a configured empty id is present, an absent one is not)")
+	}
 }
 
 func vMust(b []byte, err error) []byte {
